@@ -28,7 +28,10 @@ type Job struct {
 	Known    []string          `json:"known,omitempty"`
 	Limits   []int             `json:"limits,omitempty"` // per-query limits (ms) for z3, cvc5, z3new
 	SmtLog   string            `json:"smtlog,omitempty"`
-	Prefix   []int             `json:"prefix,omitempty"` // replay a single path
+	Prefix   []tr              `json:"prefix,omitempty"` // replay a single path
+	Prefixes [][]tr            `json:"prefixes,omitempty"` // explore only the subtrees below these decision prefixes
+	SplitAt  int               `json:"split_at,omitempty"` // after this many paths, hand the pending subtrees back to the driver
+	Root     int               `json:"root"`               // index of the job this one was split from
 }
 
 type JobResult struct {
@@ -54,6 +57,7 @@ type JobResult struct {
 	Complete     bool                `json:"complete"`
 	Terms        int                 `json:"terms"`
 	Error        string              `json:"error,omitempty"`
+	Pending      [][]tr              `json:"pending,omitempty"`
 }
 
 type loaded struct {
@@ -143,7 +147,8 @@ func loadModule(module string) (*loaded, error) {
 }
 
 func resetTerms() {
-	termTab = map[string]*Term{}
+	termTab = map[tkey]*Term{}
+	selMemo = map[[2]int]*Term{}
 	termList = nil
 	strConsts = map[string]Str{}
 	i64_0 = BV(64, 0)
@@ -184,13 +189,20 @@ func runJob(ld *loaded, job *Job) *JobResult {
 		maxPaths = 200000
 	}
 	if job.Prefix != nil {
-		ex.work = [][]int{job.Prefix}
+		ex.work = [][]tr{job.Prefix}
 		maxPaths = 1
+	} else if job.Prefixes != nil {
+		ex.work = append(ex.work, job.Prefixes...)
 	} else {
-		ex.work = [][]int{{}}
+		ex.work = [][]tr{{}}
 	}
 	complete := true
 	for len(ex.work) > 0 {
+		if job.SplitAt > 0 && ex.paths >= job.SplitAt && len(ex.work) > 1 {
+			res.Pending = ex.work
+			ex.work = nil
+			break
+		}
 		if ex.paths >= maxPaths {
 			complete = false
 			ex.inconcl["path budget exhausted"]++
@@ -236,12 +248,13 @@ func runJob(ld *loaded, job *Job) *JobResult {
 	return res
 }
 
-func runPath(ld *loaded, fn *ssa.Function, ex *Explorer, job *Job, prefix []int) {
+func runPath(ld *loaded, fn *ssa.Function, ex *Explorer, job *Job, prefix []tr) {
 	m := &Machine{prog: ld.prog, pkg: ld.pkg, globals: map[*ssa.Global]*Value{}, inited: map[*ssa.Package]bool{}, ex: ex,
 		maxSteps: 3_000_000, params: job.Params, concrete: job.Concrete, onceDone: map[*Value]bool{}}
 	ex.m = m
 	ex.pc = nil
 	ex.prefix = prefix
+	ex.trace = nil
 	ex.decisions = nil
 	ex.observed = nil
 	ex.freeMaps = false
